@@ -8,6 +8,8 @@ require (
 )
 
 require (
+	github.com/DeRuina/timberjack v1.3.9 // indirect
+	github.com/klauspost/compress v1.18.4 // indirect
 	github.com/shirou/gopsutil/v4 v4.26.1 // indirect
 	golang.org/x/crypto v0.48.0 // indirect
 	golang.org/x/sync v0.19.0 // indirect
